@@ -54,7 +54,7 @@ Cards == << [card |-> "1:1", inc |-> <<>>], [card |-> "N:1", inc |-> <<>>], [car
             [card |-> "1:1", inc |-> <<>>], [card |-> "N:1", inc |-> <<"b">>], [card |-> "1:1", inc |-> <<>>] >>
 \* shapes of the two operands
 \* sumvv / cntvv: the join below an aggregation (what the join lets through is absorbed, not re-checked at the top)
-Shapes == <<"vv", "vv", "vv", "vs", "sv", "vss", "ssv", "ss", "vv", "st", "vv", "vvagg", "vvtopk", "vvnest", "vv", "sumvv", "cntvv">>
+Shapes == <<"vv", "vv", "vv", "vs", "sv", "vss", "ssv", "ss", "vv", "st", "vv", "vvagg", "vvtopk", "vvnest", "vv", "sumvv", "cntvv", "sumvs", "topkvs">>
 
 VARIABLE g
 Init == g \in [ds : Datasets, p1 : Pat1, pa : PatA, pb : PatB, pc : PatC, n : NStepsSet]
@@ -100,6 +100,8 @@ PlanOf(x) ==
     [] sh = "st"     -> SB(x, <<Fn("time", <<>>)>>, <<Num(3)>>)
     [] sh = "vvagg"  -> VV(x, Over(LSelOf(x), LAMBDA c : Agg("sum", TRUE, <<"a", "b">>, <<c>>)), Over(RSel, LAMBDA c : Agg("max", FALSE, <<"A">>, <<c>>)))
     [] sh = "vvtopk" -> VV(x, Join(<<Num(1)>>, LSelOf(x), LAMBDA a, b : Agg("topk", TRUE, <<"a">>, <<a, b>>)), RSel)
+    [] sh = "sumvs"  -> Over(SB(x, LSelOf(x), <<Num(5)>>), LAMBDA c : Agg("sum", TRUE, <<"a">>, <<c>>))
+    [] sh = "topkvs" -> Join(<<Num(1)>>, SB(x, LSelOf(x), PSca), LAMBDA a, b : Agg("topk", TRUE, <<>>, <<a, b>>))
     [] sh = "sumvv"  -> Over(VV(x, LSelOf(x), RSel), LAMBDA c : Agg("sum", TRUE, <<"a">>, <<c>>))
     [] sh = "cntvv"  -> Over(VV(x, LSelOf(x), RSel), LAMBDA c : Agg("count", FALSE, <<"b">>, <<c>>))
     [] sh = "vvnest" -> VV(x, Join(LSelOf(x), <<Num(1)>>, LAMBDA a, b : Bin("*", a, b)), RSel)
